@@ -16,7 +16,7 @@ lookahead = Fn(FW, "find_lookahead_char_index", impl=WI, impl_header=WI, slot="s
              C("inside_the_text_on_a_boundary", "res is Some ==> self.cursor_index <= res->0 < self.cursor_limit && boundary(self.src, res->0 as int)", ["C03"])],
     rewrites=[Rewrite("let mut paren_nesting = 0;", "let mut paren_nesting: usize = 0;", rule="R10", why="type ascription"),
               Rewrite("let mut brace_nesting = 0;", "let mut brace_nesting: usize = 0;", rule="R10", why="type ascription"),
-              Rewrite("syntax::token::is_whitespace", "token::is_whitespace", rule="R6", why="module path")],
+              Rewrite("syntax::token::is_whitespace", "token::is_whitespace", count=None, rule="R6", why="module path")],
     loops={1: Loop(invariant=[
         C("scan", "self.wf() && self.cursor_index <= byte_index && (byte_index < self.cursor_limit ==> boundary(self.src, byte_index as int)) && paren_nesting <= byte_index && brace_nesting <= byte_index"),
         C("the_search_so_far", "look(self.src, self.cursor_limit as int, wanted_char, byte_index as int, seen_tokens, paren_nesting as int, brace_nesting as int) == look(self.src, self.cursor_limit as int, wanted_char, self.cursor_index as int, false, 0, 0)"),
